@@ -28,6 +28,7 @@ struct Env {
   std::string                        hostname = "vhost.hostdom.example";
   std::string                        json() const;
 };
+void rewrite_file(const std::string &path, const std::string &content, long mtime); // a file changes while a channel is alive (time() is 1700000000)
 void env_apply(const Env &e); // installs files + environment variables + hostname
 void lib_init();              // once per process: hooks + ares_library_init_mem(ledger)
 void set_if_lookup_action(std::function<void()> fn); // one-shot: runs inside the application's next interface lookup callback
